@@ -587,6 +587,7 @@ def replay_case(kind, case):
         # re-derive both fresh answers in new interpreters with the two hash seeds
         out = []
         vals = []
+        base_trees(C)        # the fresh interpreters answer on the base data (state ''), as they did when the tables were built
         for hs, first in (case["a"], case["b"]):
             e = dict(os.environ, PYTHONHASHSEED=str(hs))
             p = subprocess.run([sys.executable, "-m", "props.c13", "fresh", first, "-", case["call"]], capture_output=True, text=True, env=e,
